@@ -1285,6 +1285,43 @@ func catchUpStats(m *meta, rng *rand.Rand, round int) {
 	m.countN("catch_up_gets", int64(caughtUp))
 }
 
+// inlineOvertake (C01, C04): SetAsync(k, v1) is queued because the drain token is busy; the token is released and
+// SetAsync(k, v2) follows at once (it may apply inline only if nothing is queued). After Sync the key must hold v2.
+func inlineOvertake(m *meta, rng *rand.Rand, round int) {
+	pol := pick(rng, []kioshun.EvictionPolicy{kioshun.LRU, kioshun.FIFO, kioshun.LFU, kioshun.SieveTinyLFU})
+	ctx := fmt.Sprintf("inline overtake round %d policy %v", round, pol)
+	c, err := kioshun.New[int, int](kioshun.Config{MaxSize: 64, ShardCount: 1, EvictionPolicy: pol, WriteBufferSize: 256})
+	must(err)
+	defer c.Close()
+	watch(ctx)
+	defer unwatch()
+	wrong := 0
+	first := ""
+	for i := 0; i < 200; i++ {
+		v1, v2 := 2*i+1, 2*i+2
+		c.VerifHoldDrain(0, true)
+		e1 := c.SetAsync(5, v1, kioshun.NoExpiration)
+		c.VerifHoldDrain(0, false)
+		e2 := c.SetAsync(5, v2, kioshun.NoExpiration)
+		if e1 != nil || e2 != nil {
+			continue
+		}
+		c.Sync()
+		if v, ok := c.Get(5); !ok || v != v2 {
+			wrong++
+			if first == "" {
+				first = fmt.Sprintf("round %d: SetAsync(5,v%d) [queued: drain token busy], SetAsync(5,v%d), Sync, Get(5) = (v%d,%v)", i, v1, v2, v, ok)
+			}
+		}
+	}
+	if wrong > 0 {
+		for _, p := range []string{"C01", "C04"} {
+			m.violate(p, fmt.Sprintf("%s: %d of 200 rounds ended with the overwritten value; %s: the later accepted write must win", ctx, wrong, first), ctx)
+		}
+	}
+	m.count("inline_overtake_rounds")
+}
+
 // deleteBehindQueue (C01, C04): a SetAsync(k,v2) that was accepted and is still queued (the drain token is busy), then
 // Delete(k): the Delete began after the SetAsync returned, so after Sync the key must be gone.
 func deleteBehindQueue(m *meta, rng *rand.Rand, round int) {
@@ -1713,6 +1750,7 @@ func streamConc(o opts) {
 			queuedStampProbe(m, rng, r)
 			ttlBoundaryProbe(m, rng, r)
 			deleteBehindQueue(m, rng, r)
+			inlineOvertake(m, rng, r)
 			doubleClear(m, rng, r)
 			m.nontrivial(fmt.Sprintf("async+close/%d", r%16))
 		case 3:
